@@ -30,6 +30,8 @@ def run(ctx):
     r5(ctx)
     r6(ctx)
     r7(ctx)
+    r_linezero(ctx)
+    r_msgid(ctx)
     w1(ctx)
 
 
@@ -99,7 +101,18 @@ def r1(ctx):
             if fb.cond is None or lab is None:
                 return True
             flds = {n['f'] for n in walk(fb.cond) if n.get('k') == 'mem'}
-            return flds <= {'lineno', 'stop', 'start'} and bool(flds)
+            if flds <= {'lineno', 'format', 'stop', 'start'} and bool(flds):
+                return True
+            # an "in use" predicate of the slot alone: a static function of the call site only (no filter argument)
+            calls = [n for n in walk(fb.cond) if n.get('k') == 'call']
+            for c_ in calls:
+                nm = callee_of(c_)
+                if nm and prog.has_fn(nm) and len(c_['args']) == 1:
+                    h = prog.fn(nm)
+                    if not any(unwrap(st.lhs).get('k') != 'var' for st in h.events('STORE')) and \
+                            {n['f'] for e_ in h.returns() for n in walk(e_.e or {}) if n.get('k') == 'mem'} <= {'lineno', 'format', 'filename', 'function'}:
+                        return True
+            return False
         hits, _e, _n = a.search(('entry',), goal=lambda ev: ev is tocs[0], edge_filter=allowed)
         ctx.check('R1', 'apply-unconditional-per-callsite', bool(hits), tocs[0], 'every registered call site gets the filter applied',
                   'applying the filter to a registered call site depends on a further condition: some call sites keep a stale selection')
@@ -169,6 +182,62 @@ def r2(ctx):
         ok2 = bound_ok or alt_enable or alt_delivery
         ctx.check('R2', '%s:replay-covers-all-slots' % fname, ok2, site, 'the replay loop covers every target slot (bound %s)' % bound,
                   'the replay loop stops at %s: filter-holding targets beyond it are skipped' % bound)
+
+
+def r_linezero(ctx):
+    """every walk over the call sites of a section reaches every call site in use: a slot may be skipped as unused, but not because of
+    its line number alone - 0 is a line number like any other (qb_log_from_external_source, qb_log_callsite_get)"""
+    prog = ctx.prog
+    n = 0
+    for g in prog.all_fns(files={'lib/log.c'}):
+        for b in g.blocks.values():
+            if b.cond is None:
+                continue
+            flds = {nn.get('f') for nn in walk(b.cond) if nn.get('k') == 'mem' and nn.get('rec') == 'qb_log_callsite'}
+            if 'lineno' not in flds:
+                continue
+            # a test of the line number against 0 that decides whether the call site is visited
+            zero = any(last_field(a.l) == ('qb_log_callsite', 'lineno') and a.rc == 0 for lab in (True, False) for a in atoms_of(b.cond, lab))
+            if not zero:
+                continue
+            n += 1
+            # in use = line number > 0 OR something else: on the skipping edge another field must be known absent as well
+            skip_needs_more = False
+            for (t, lab) in b.succs:
+                if lab in (True, False):
+                    ats = atoms_of(b.cond, lab)
+                    if any(last_field(a.l) == ('qb_log_callsite', 'lineno') and a.op in ('==', '<=') and a.rc == 0 for a in ats) and \
+                            any(last_field(a.l) and last_field(a.l)[0] == 'qb_log_callsite' and last_field(a.l)[1] != 'lineno' and a.op == '==' and a.rc == 0 for a in ats):
+                        skip_needs_more = True
+            # when the condition is split over blocks (a || b), the lineno block's "false" edge leads to the other test
+            if not skip_needs_more:
+                for (t, lab) in b.succs:
+                    tb = g.blocks[t]
+                    trees = ([tb.cond] if tb.cond is not None else []) + [x for ev in tb.events for x in (ev.d.get('e'), ev.d.get('rhs')) if x is not None]
+                    if lab is False and any(nn.get('k') == 'mem' and nn.get('rec') == 'qb_log_callsite' and nn.get('f') != 'lineno' for tr in trees for nn in walk(tr)):
+                        skip_needs_more = True
+            ctx.check('R1', '%s:line-0-call-sites-visited' % g.name, skip_needs_more, '%s:%d (%s)' % (g.file, b.term_ln, g.name),
+                      'a slot is skipped as unused only if it has no line number and no format either',
+                      '%s skips every call site whose line number is 0: filters added or removed after its first execution never reach it (a removed filter keeps '
+                      'selecting it, a new one never does, and its bit survives the close of the target)' % g.name)
+    return n
+
+
+def r_msgid(ctx):
+    """the stored call site's message id may be absent: it is handed to strcmp only where it was seen to be non-NULL"""
+    prog = ctx.prog
+    g = prog.fn('qb_log_dcs_get')
+    n = 0
+    for ev in g.calls('strcmp', 'strncmp', 'strcasecmp'):
+        for a in ev.args[:2]:
+            if last_field(a) == ('qb_log_callsite', 'message_id'):
+                n += 1
+                want = estr(unwrap(a))
+                ok = any(at.ls == want and at.op == '!=' and at.rc == 0 for (at, _e) in g.guards(ev))
+                ctx.check('R7', 'dcs:stored-message-id-present-before-compare', ok, ev, 'the stored message id is compared only where it exists',
+                          'strcmp is handed %s without a test that the stored call site has a message id: qb_log2("ID", ...) on a position first used '
+                          'without one crashes' % want)
+    return n
 
 
 def filter_core(prog):
